@@ -101,6 +101,22 @@ func (e *Engine) verifyUnit(fn *ssa.Function, ct *FuncContract, alias []string, 
 	}
 	x.run(fr, st, args, bind)
 
+	// vacuity: some exit of the function is reachable under the facts assumed
+	// along the way (an inconsistent assumption would "prove" everything)
+	{
+		var pcs []string
+		for _, r := range fr.rets {
+			pcs = append(pcs, r.st.pc)
+		}
+		for _, ps := range fr.panics {
+			pcs = append(pcs, ps.pc)
+		}
+		if len(pcs) > 0 {
+			o := vc.oblige(u.Name+"/cover:exit", "cover", u.Name, ct.Src, "some exit of the function is reachable (assumptions are consistent)", "(or "+strings.Join(pcs, " ")+")", "false")
+			o.Expect = "sat"
+			vc.lines = vc.lines[:len(vc.lines)-1]
+		}
+	}
 	// postconditions at every return
 	sig := fn.Signature
 	rn, rtys := resultNames(sig)
